@@ -24,6 +24,12 @@ def run_property(chk: Check, pid: str, props_module: str, theorems: List[str], m
         if not ok:
             model_ok = False
             chk.broken_obligation("model does not build against the regenerated definitions", log[-600:])
+        if model_ok and chk.tier == "thorough":
+            # independent re-check of the compiled property file and everything it depends on
+            okc, outc = C.FAM.coqchk(props_module)
+            chk.cov["coqchk"] = " ".join(outc.split())[-1500:]
+            if not okc:
+                chk.broken_obligation("coqchk rejected Mgr." + props_module, outc[-600:])
     else:
         chk.cov["obligations"] += len(theorems)
     scale = 8 if chk.tier == "thorough" else 1
